@@ -1,7 +1,81 @@
-(* C11 -- placeholder until the lemmas land *)
-From Tola Require Import Py.Base Model.Fragment Model.Scaffold Model.Namer Model.Remap.
+(* C11 -- Curation statistics count the real cuts, breaks and joins.
+   Only statements, each closed by [exact] of a lemma from Proofs/Junctions.v.
+   (cuts = output fragments - input contigs follows from C01's conservation:
+   see Properties/C01.v) *)
+From Tola Require Import Py.Base Model.Fragment Model.Scaffold Model.Namer Model.Remap
+  Proofs.Junctions.
+From Coq Require Import Permutation.
 
-Lemma C11_canon_example :
-  canon_junction (JSIIS (s "b") 5 9 (s "a")) = JSIIS (s "a") 9 5 (s "b").
-Proof. vm_compute. reflexivity. Qed.
-Print Assumptions C11_canon_example.
+(* an adjacency is the unordered pair of the two facing contig ends: the
+   canonical junction of (a,b) equals that of (c,d) exactly when they are the
+   same pair of ends (each end = name, coordinate, which end of the contig) *)
+Theorem C11_junction_is_unordered_pair : forall a b c d j1 j2, pm a -> pm b -> pm c -> pm d ->
+  junction_tuple a b = Ok j1 -> junction_tuple c d = Ok j2 ->
+  (canon_junction j1 = canon_junction j2 <->
+   (tail_end a = tail_end c /\ head_end b = head_end d) \/
+   (tail_end a = head_end d /\ head_end b = tail_end c)).
+Proof. exact junction_injective. Qed.
+Print Assumptions C11_junction_is_unordered_pair.
+
+(* reading a junction from the other side of the scaffold gives the same
+   canonical junction ... *)
+Theorem C11_junction_reverse_pair : forall a b ja jb, pm a -> pm b ->
+  junction_tuple a b = Ok ja -> junction_tuple (frag_reverse b) (frag_reverse a) = Ok jb ->
+  canon_junction ja = canon_junction jb.
+Proof. exact junction_reverse_pair. Qed.
+Print Assumptions C11_junction_reverse_pair.
+
+(* ... so reversing a whole scaffold (in input or output) changes no junction
+   set, hence neither breaks nor joins *)
+Theorem C11_junction_set_reverse : forall rows js jr,
+  Forall pm (frags_of rows) ->
+  junction_set repaired rows = Ok js -> junction_set repaired (rows_reverse rows) = Ok jr ->
+  forall j, In j js <-> In j jr.
+Proof. exact junction_set_reverse. Qed.
+Print Assumptions C11_junction_set_reverse.
+
+Theorem C11_junction_set_reverse_same_size : forall rows js jr,
+  Forall pm (frags_of rows) ->
+  junction_set repaired rows = Ok js -> junction_set repaired (rows_reverse rows) = Ok jr ->
+  Permutation js jr.
+Proof. exact junction_set_reverse_perm. Qed.
+Print Assumptions C11_junction_set_reverse_same_size.
+
+(* junction sets exist whenever all strands are +1/-1, and fail (an error, not
+   a wrong count) when a strand-0 fragment has a neighbour *)
+Theorem C11_junction_set_ok : forall c rows, Forall pm (frags_of rows) ->
+  exists js, junction_set c rows = Ok js.
+Proof. exact junction_set_ok. Qed.
+Print Assumptions C11_junction_set_ok.
+
+Theorem C11_strand0_is_an_error : forall c rows a b, adjacent (frags_of rows) a b ->
+  f_strand a = 0 \/ f_strand b = 0 -> junction_set c rows = Err ValueError.
+Proof. exact junction_set_err_strand0. Qed.
+Print Assumptions C11_strand0_is_an_error.
+
+(* breaks = |In \ Out| and joins = |Out \ In| are computed with list functions
+   that have their set meaning on duplicate-free lists *)
+Theorem C11_diff_is_set_difference : forall a b x, In x (diff_j a b) <-> In x a /\ ~ In x b.
+Proof. exact diff_j_in. Qed.
+Print Assumptions C11_diff_is_set_difference.
+Theorem C11_union_is_set_union : forall a b x, In x (union_j a b) <-> In x a \/ In x b.
+Proof. exact union_j_in. Qed.
+Print Assumptions C11_union_is_set_union.
+Theorem C11_inter_is_set_intersection : forall a b x, In x (inter_j a b) <-> In x a /\ In x b.
+Proof. exact inter_j_in. Qed.
+Print Assumptions C11_inter_is_set_intersection.
+Theorem C11_junction_sets_duplicate_free : forall c rows js, junction_set c rows = Ok js -> NoDup js.
+Proof. exact junction_set_nodup. Qed.
+Print Assumptions C11_junction_sets_duplicate_free.
+Theorem C11_union_duplicate_free : forall a b, NoDup a -> NoDup b -> NoDup (union_j a b).
+Proof. exact union_j_nodup. Qed.
+Print Assumptions C11_union_duplicate_free.
+
+(* the encoding of the pinned commit is refuted: [A+, B-] and its reverse have
+   different junction sets (repaired by a fix: commit) *)
+Theorem C11_legacy_refuted : exists rows js jr,
+  Forall pm (frags_of rows) /\ junction_set (mkCfg true true true false) rows = Ok js
+  /\ junction_set (mkCfg true true true false) (rows_reverse rows) = Ok jr
+  /\ ~ (forall j, In j js <-> In j jr).
+Proof. exact legacy_junction_refuted. Qed.
+Print Assumptions C11_legacy_refuted.
